@@ -33,7 +33,7 @@ fn fam(
 }
 
 /// Staged (grammar-restricted, deeper) family.
-fn staged(name: &str, stages: Vec<Stage>, assert_kinds: &[AK], c: usize, max_pub: usize, consts: &[u8]) -> Family {
+pub fn staged(name: &str, stages: Vec<Stage>, assert_kinds: &[AK], c: usize, max_pub: usize, consts: &[u8]) -> Family {
     Family {
         name: name.into(),
         value_kinds: vec![],
@@ -51,7 +51,7 @@ fn staged(name: &str, stages: Vec<Stage>, assert_kinds: &[AK], c: usize, max_pub
     }
 }
 
-fn stage(kinds: &[VK], count: usize, from: &[u8], new_pub: bool, consts: bool) -> Stage {
+pub fn stage(kinds: &[VK], count: usize, from: &[u8], new_pub: bool, consts: bool) -> Stage {
     Stage { kinds: kinds.to_vec(), count, from_stages: from.to_vec(), allow_new_pub: new_pub, allow_consts: consts }
 }
 
